@@ -1,4 +1,4 @@
-From PQV Require Import Instance.
+From PQV Require Import InstanceT.
 From Coq Require Import Extraction ExtrOcamlBasic.
 Extraction Language OCaml.
-Extraction "model.ml" zrun zstep init_machine total_ticks is_fault Z.add Z.eqb N.add N.mul.
+Extraction "model.ml" trun tstep tinit_machine total_ticks is_fault Z.add Z.eqb N.add N.mul.
